@@ -13,7 +13,7 @@ def kind_by_id(spec):
     return {v["id"]: v["kind"] for v in spec["vertices"]}
 
 
-def build(spec, with_graph=True):
+def build(spec, with_graph=True, stale_prebind=True):
     verts = [I.Vertex(v["id"], I.mk_pose(v["kind"], v["pose"]), bool(v.get("fixed", False))) for v in spec["vertices"]]
     kb = kind_by_id(spec)
     edges = []
@@ -41,8 +41,22 @@ def build(spec, with_graph=True):
         else:
             raise ValueError(t)
         edges.append(ed)
+    if stale_prebind:
+        # "start from non-initial states too": every edge object arrives already bound to OTHER vertex objects with the same
+        # ids and different poses (as after use in an earlier graph); constructing the graph must re-bind it
+        for ed in edges:
+            ed.vertices = [_stale_vertex(i, kb[i], spec) for i in ed.vertex_ids]
     g = I.Graph(edges, verts) if with_graph else None
     return g, verts, edges
+
+
+def _stale_vertex(vid, kind, spec):
+    for v in spec["vertices"]:
+        if v["id"] == vid:
+            d = {"R2": 2, "R3": 3, "SE2": 2, "SE3": 3}[kind]
+            c = [x * 1.5 + 1.0 + 0.37 * (hash(vid) % 5) for x in v["pose"][:d]] + list(v["pose"][d:])
+            return I.Vertex(vid, I.mk_pose(kind, c))
+    raise KeyError(vid)
 
 
 class _NumOdo(I.EdgeOdometry):
